@@ -35,7 +35,7 @@ pub fn unary(r: usize, c: usize, thorough: bool) -> Vec<Op> {
     for x in [0.0, 10.0] {
         v.push(Op::new(K::BinarizeMut).x(x));
     }
-    for x in [1.0, 2.0, 3.0, INF, -INF] {
+    for x in [1.0, 2.0, 3.0, 0.5, -1.0, INF, -INF] {
         v.push(Op::new(K::Norm).x(x));
     }
     for k in [K::Mean, K::Var, K::Std, K::ScaleMut] {
@@ -124,7 +124,7 @@ pub fn vec_unary(n: usize, thorough: bool) -> Vec<Op> {
     for k in [K::VBasic, K::VNorm2, K::VSum, K::VUnique, K::VMoments] {
         v.push(Op::new(k));
     }
-    for x in [1.0, 2.0, 3.0, INF, -INF] {
+    for x in [1.0, 2.0, 3.0, 0.5, -1.0, INF, -INF] {
         v.push(Op::new(K::VNorm).x(x));
     }
     for w in 0..3 {
